@@ -18,6 +18,7 @@ type dmgObs struct {
 	Gets    []getOut `json:"gets,omitempty"`
 	Scan    scanOut  `json:"scan"`
 	From    scanOut  `json:"from"`
+	Range   scanOut  `json:"range"`         // ScanRange over the whole key space
 	Mod     []byte   `json:"mod,omitempty"` // the damaged bytes (swap only)
 }
 
@@ -70,6 +71,8 @@ func (c *c09Case) observe(dir string, data []byte, ob *dmgObs) {
 		ob.Scan = drainTable(it, err, len(c.KVs)+2)
 		it, err = r.ScanStartingAt([]byte{})
 		ob.From = drainTable(it, err, len(c.KVs)+2)
+		it, err = r.ScanRange([]byte{}, bytes.Repeat([]byte{0xff}, 40))
+		ob.Range = drainTable(it, err, len(c.KVs)+2)
 	}()
 }
 
@@ -179,6 +182,11 @@ func (c *c09Case) Oracle() (bool, string) {
 		}
 		for _, kv := range ob.From.KVs {
 			if ok, m := chk(kv.K, kv.val(), kv.Nil, "ScanStartingAt"); !ok {
+				return false, m
+			}
+		}
+		for _, kv := range ob.Range.KVs {
+			if ok, m := chk(kv.K, kv.val(), kv.Nil, "ScanRange"); !ok {
 				return false, m
 			}
 		}
